@@ -3,7 +3,8 @@
    H is BLAKE3 as a variable; the only thing assumed of it is the 32-byte output length, and - in
    the payload-change theorem - that the ORIGINAL and the DAMAGED payload do not collide. *)
 From Cas Require Import Codec.
-From CasProofs Require Import BaseProofs CodecBase CodecProofs.
+From Cas Require Import History.
+From CasProofs Require Import BaseProofs CodecBase CodecProofs StoreInv DiskInv Recover Damage.
 
 (* the log cut short at any byte offset inside a record: replay delivers exactly the records
    before it, then sees the end of the log (cut inside the 44-byte header) or fails (cut inside
@@ -57,4 +58,51 @@ Theorem C10_accepted_records_are_checksummed :
 Proof. exact read_record_sound. Qed.
 Print Assumptions C10_accepted_records_are_checksummed.
 
+(* ---- store level: a store at rest (Inv), one uncheckpointed record (v, p) of segment i damaged
+   (Setting / DamagedBy: truncation at any offset inside it with the later segments gone, payload
+   change without collision, checksum change).  j = number of uncheckpointed records strictly
+   before the damaged one. ---- *)
+Theorem C10_damage :
+  forall H : bytes -> bytes,
+    (forall b, length (H b) = 32%nat) -> (forall b, Forall (fun x => x < 256) (H b)) ->
+  forall cfg : config, 0 < c_n cfg ->
+  forall (m : mem) (s : fs) (sg : smap bytes) (ids : list N) (rf : N -> list (N * bytes))
+         (sf : N -> bool) (km_c : smap item) (ops : list rawop) (i : N) (recs1 : list (N * bytes))
+         (v : N) (p : bytes) (recs2 : list (N * bytes)) (d : damage) (w : world),
+    Setting H cfg m s sg ids rf sf km_c ops i recs1 v p recs2 ->
+    DamagedBy H s sf i recs1 v p recs2 d w ->
+    let j := n_before (lpv (idx m)) ids rf i recs1 in
+    (exists e w', open_store H cfg w = (Err e, w')
+                  /\ (e = EIntegrity \/ e = EReplay RShortPayload \/ e = EReplay RChecksum))
+    \/ (exists m' os w', open_store H cfg w = (Ok (m', os), w')
+                         /\ km (idx m') = fold_left (kstep cfg) (firstn j ops) km_c
+                         /\ IndexProofs.IdxInv (key_cmp (c_kt cfg)) (idx m')
+                         /\ nextv (mwal m') = v /\ (j < length ops)%nat).
+Proof. exact Damage.C10_damage. Qed.
+Print Assumptions C10_damage.
+
+Theorem C10_never_panics :
+  forall H : bytes -> bytes,
+    (forall b, length (H b) = 32%nat) -> (forall b, Forall (fun x => x < 256) (H b)) ->
+  forall cfg : config, 0 < c_n cfg ->
+  forall m s sg ids rf sf km_c ops i recs1 v p recs2 d w,
+    Setting H cfg m s sg ids rf sf km_c ops i recs1 v p recs2 ->
+    DamagedBy H s sf i recs1 v p recs2 d w ->
+    fst (open_store H cfg w) <> Err EPanic /\ fst (open_with_recover H cfg w) <> Err EPanic.
+Proof. exact Damage.C10_no_panic. Qed.
+Print Assumptions C10_never_panics.
+
+(* whatever the outcome, the operations replay applied are exactly the undamaged prefix *)
+Theorem C10_never_applies_an_altered_operation :
+  forall H : bytes -> bytes,
+    (forall b, length (H b) = 32%nat) -> (forall b, Forall (fun x => x < 256) (H b)) ->
+  forall cfg : config, 0 < c_n cfg ->
+  forall m s sg ids rf sf km_c ops i recs1 v p recs2 d w,
+    Setting H cfg m s sg ids rf sf km_c ops i recs1 v p recs2 ->
+    DamagedBy H s sf i recs1 v p recs2 d w ->
+    applied_on_open H cfg (wfs w) = firstn (n_before (lpv (idx m)) ids rf i recs1) ops.
+Proof. exact Damage.C10_applied_prefix. Qed.
+Print Assumptions C10_never_applies_an_altered_operation.
+
 Example C10_nonvacuous := CodecProofs.ex_segment_truncated.
+Example C10_nonvacuous_store := Damage.dmg_theorem_instance.
